@@ -23,6 +23,7 @@ Transformations
   extract-arg-apart  the same with a statement without effect between the temporary and its use (so that the rules cannot
                  rely on normalisation N5 putting the expression back)
   else-then-flip else-after-exit followed by flip-if (``if not c: return X`` + rest -> ``if c: rest`` / ``else: return X``)
+  all-composed   eleven of the above applied one after the other to the same tree
   insert-noop    a call without effect (``(lambda: None)()``, standing for a log line) at the start of every function
                  body and loop body
 """
@@ -582,6 +583,8 @@ TRANSFORMS = {
     "extract-arg-apart": lambda tree: _ExtractArg(apart=True).visit(tree),
 }
 TRANSFORMS["else-then-flip"] = _compose("else-after-exit", "flip-if")
+# everything at once: the rewrites must also commute with each other as far as the rules are concerned
+TRANSFORMS["all-composed"] = _compose("rename-locals", "swap-compare", "split-and", "chain-split", "ifexp-to-if", "else-after-exit", "flip-if", "extract-arg-apart", "return-temp", "keyword-last", "insert-noop")
 
 
 def python_files(repo=None):
